@@ -30,6 +30,7 @@ func checkC04(p *Prog, r *Report) {
 	c03Session(p, r, p.SSA(), "C04.R11")
 	inputHelpers(p, r, "C04.R12")
 	yearExtensionRule(p, r, "C04.R13")
+	sessionOpenRule(p, r, "C04.R14")
 }
 
 // ---------------------------------------------------------------- R1 weather errors propagate
